@@ -13,7 +13,11 @@ Dates == {<<2019, 12, 30>>, <<2020, 1, 28>>, <<2020, 1, 31>>, <<2020, 2, 28>>, <
 ExactIv == {MkD(0, 0, 0, 6), MkD(0, 0, 1, 0), MkD(0, 0, 7, 0), MkD(0, 0, 1, 12)}
 NominalIv == {MkD(0, 1, 0, 0), MkD(1, 0, 0, 0), MkD(0, 1, 2, 0), MkD(0, 2, 0, 0)}
 ZeroIv == {MkD(0, 0, 0, 0)}
-CONSTANTS Intervals, Fmts, Ns
+CONSTANTS Intervals, Fmts, Ns, Shifts
+TheShift == MkD(0, 0, 1, 1)
+NoShifts == {NoShift}
+OneShift == {TheShift}
+ShiftOK == ShiftedBy(TheShift)
 ValidIn(mm, dte) == ValidCal(mm, dte[1], dte[2], dte[3])
 Init ==
   /\ m \in Modes
@@ -22,6 +26,7 @@ Init ==
        /\ LET a == MkP(m, rep, dte[1], dte[2], dte[3], 82800, <<1, 0>>) IN
           inp = [fmt |-> fmt, n |-> n, a |-> a, s |-> AddDurTP(m, a, MkD(0, 0, 1, 1)), d |-> iv]
   /\ r = [n |-> 0] /\ pc = "new" /\ cur = NoP /\ out = << >>
+  /\ sh \in Shifts /\ out1 = << >>
 Spec == Init /\ [][Next]_vars
 \* C13: get_first_after of the constructed object agrees with the iterated series (bounded, exact interval, forward)
 Probes == {out[i] : i \in 1..Len(out)} \cup {AddExactTP(m, out[i], <<0, 1, 0>>) : i \in 1..Len(out)}
